@@ -125,7 +125,6 @@ class OcImpl:
             (oc / dv["name"]).write_bytes(_expand(_TABLES["files"][dv["fl"] - 1]))
 
     def views(self):
-        from hippolyzer.lib.base.datatypes import UUID  # noqa
         res = {}
         if self.vc is None:
             res["vc"] = {"k": "none"}
@@ -309,7 +308,7 @@ def _action_counts(edges, wanted, what):
 
 
 def objectcache_section(chk: Check, recs, max_pairs: int):
-    global _G, _TABLES, _SCRATCH
+    global _SCRATCH
     # thousands of small files are written: a memory file system if there is one (creating and truncating files on the
     # disk behind /tmp costs milliseconds each), the check's scratch directory otherwise
     base = "/dev/shm" if os.path.isdir("/dev/shm") and os.access("/dev/shm", os.W_OK) else chk.scratch
@@ -544,7 +543,19 @@ def _tick(what):
 
 def section(chk: Check, n_variants: int, oc_depth: int, max_ents: int, cuts, rich_ents: bool, oc_rich: bool, interleave: bool,
             nc_depth: int, nc_blocks: int, nc_rich: bool, max_pairs: int = 3000, nc_bugs=("NoneText",)):
-    """Both models are exported (and model-checked) concurrently, then replayed one after the other."""
+    """ObjectCache: n_variants of ObjectCache!DirVariants may be written by the two viewers, graph depth oc_depth (5 reaches
+    write, from_path, read_region, lookup), region-file table with up to max_ents entries over the small (rich_ents: full)
+    entry alphabet and `cuts` bytes missing at the end, oc_rich: full for_region parameters, interleave: viewers rewrite
+    while the client holds objects.  NameCache: graph depth nc_depth, up to nc_blocks blocks / agents per message.
+    Recommended: quick   section(chk, 6, 5, 2, [0, 1, 24, 27], False, False, False, 3, 2, False, max_pairs=600)
+                 thorough section(chk, 9, 5, 3, [0, 1, 3, 8, 24, 27, 30, 51], False, True, True, 4, 2, False, max_pairs=6000)
+    Both models are exported (and model-checked) concurrently, then replayed one after the other."""
+    chk.assumptions += [
+        "growth ObjectCache: object.cache always holds all 128 slots and lists a region at most once; a region file that ends "
+        "inside its header or inside an entry may be refused or read up to the cut (both accepted)",
+        "growth NameCache: every agent record of a GetDisplayNames response carries id, legacy_first_name, legacy_last_name, "
+        "display_name and is_display_name_default; legacy names are never reported as null",
+    ]
     oc_cfg = _cfg({"NDirs": 2, "NVariants": n_variants, "MaxEnts": max_ents, "Cuts": _tla(set(cuts)), "RichEnts": _tla(bool(rich_ents)),
                    "Rich": _tla(bool(oc_rich)),
                    "Interleave": _tla(bool(interleave)), "Depth": oc_depth}, OC_INVS, OC_PROPS)
